@@ -1,70 +1,1530 @@
-//! scratch exploration (will be replaced)
+//! C08 — factories create minters only within governance limits and for the fee.
+//!
+//! Real contracts (all four factories, all 11 minter code ids, the four sg721 codes, plain/flex whitelists) in one
+//! cw-multi-test `App` (`lp_harness::minters::World`) vs the Lean model `LP.FC` (Model/FactoryCreate.lean).
+//! Protocol: see lean/LaunchpadModel/Driver/C08.lean.
 use lp_harness::minters::*;
-use lp_harness::world::addr;
-use serde_json::json;
+use lp_harness::world::{addr, addr_id, denom, denom_id};
+use lp_harness::*;
+use serde_json::{json, Value};
+use std::collections::BTreeMap;
 
-fn supply(w: &World, d: u64) -> u128 {
-    let den = lp_harness::world::denom(d);
-    w.app.read_module(|_r, _a, st| {
-        let mut pre: Vec<u8> = vec![0, 4];
-        pre.extend_from_slice(b"bank");
-        pre.extend_from_slice(&[0, 8]);
-        pre.extend_from_slice(b"balances");
-        let mut end = pre.clone();
-        *end.last_mut().unwrap() += 1;
-        let mut tot = 0u128;
-        for (_k, v) in st.range(Some(&pre), Some(&end), cosmwasm_std::Order::Ascending) {
-            let coins: Vec<cosmwasm_std::Coin> = serde_json::from_slice(&v).unwrap();
-            for c in coins {
-                if c.denom == den {
-                    tot += c.amount.u128();
+const BAD_ADDR: &str = "BAD ADDR";
+const BAD_URL: &str = "not a url";
+const GOOD_URI: &str = "ipfs://bafybeigi3bwpvyvsmnbj46ra4hyffcxdeaj6ntfk5jpic5mx27x6ih2qvq/images";
+const NS: u64 = 1_000_000_000;
+const POOL: &str = "fairburn_pool";
+
+// ------------------------------------------------------------------------------------------------ small helpers
+
+#[derive(Clone, Copy, Debug, PartialEq, Eq)]
+enum AF {
+    Absent,
+    Bad,
+    Id(u64),
+}
+impl AF {
+    fn parse(line: &str, key: &str) -> AF {
+        match kv(line, key) {
+            None | Some("-") => AF::Absent,
+            Some("x") => AF::Bad,
+            Some(v) => v.parse().map(AF::Id).unwrap_or(AF::Bad),
+        }
+    }
+    fn json(self) -> Value {
+        match self {
+            AF::Absent => Value::Null,
+            AF::Bad => Value::String(BAD_ADDR.into()),
+            AF::Id(i) => Value::String(addr(i)),
+        }
+    }
+    fn s(self) -> String {
+        match self {
+            AF::Absent => "-".into(),
+            AF::Bad => "x".into(),
+            AF::Id(i) => i.to_string(),
+        }
+    }
+}
+
+fn fk_idx(k: FactoryKind) -> u64 {
+    match k {
+        FactoryKind::Vending => 0,
+        FactoryKind::OpenEdition => 1,
+        FactoryKind::TokenMerge => 2,
+        FactoryKind::Base => 3,
+    }
+}
+fn fk_of(i: u64) -> FactoryKind {
+    match i {
+        0 => FactoryKind::Vending,
+        1 => FactoryKind::OpenEdition,
+        2 => FactoryKind::TokenMerge,
+        _ => FactoryKind::Base,
+    }
+}
+fn fk_name(k: FactoryKind) -> &'static str {
+    match k {
+        FactoryKind::Vending => "vending-factory",
+        FactoryKind::OpenEdition => "open-edition-factory",
+        FactoryKind::TokenMerge => "token-merge-factory",
+        FactoryKind::Base => "base-factory",
+    }
+}
+fn kv_coin(line: &str, key: &str) -> Option<(u64, u128)> {
+    let v = kv(line, key)?;
+    let (a, b) = v.split_once(':')?;
+    Some((a.parse().ok()?, b.parse().ok()?))
+}
+fn kv_opt_coin(line: &str, key: &str) -> Option<(u64, u128)> {
+    if kv(line, key) == Some("-") {
+        None
+    } else {
+        kv_coin(line, key)
+    }
+}
+fn coin_s(c: (u64, u128)) -> String {
+    format!("{}:{}", c.0, c.1)
+}
+fn dec_str(a: u128) -> String {
+    format!("{}.{:018}", a / 10u128.pow(18), a % 10u128.pow(18))
+}
+fn dec_atomics(s: &str) -> u128 {
+    let (i, f) = s.split_once('.').unwrap_or((s, ""));
+    let mut f = f.to_string();
+    while f.len() < 18 {
+        f.push('0');
+    }
+    i.parse::<u128>().unwrap_or(0) * 10u128.pow(18) + f[..18].parse::<u128>().unwrap_or(0)
+}
+fn jcoin_v(v: &Value) -> (u64, u128) {
+    if v.is_null() {
+        (0, 0)
+    } else {
+        (denom_id(v["denom"].as_str().unwrap_or("")), v["amount"].as_str().and_then(|x| x.parse().ok()).unwrap_or(0))
+    }
+}
+fn jaddr(v: &Value) -> String {
+    match v.as_str() {
+        Some(s) => addr_id(s).to_string(),
+        None => "-".into(),
+    }
+}
+fn jnum(v: &Value) -> String {
+    if let Some(n) = v.as_u64() {
+        n.to_string()
+    } else if let Some(s) = v.as_str() {
+        s.to_string()
+    } else {
+        "-".into()
+    }
+}
+fn ceil3pct(n: u64) -> u64 {
+    (3 * n + 99) / 100
+}
+/// the minters that enforce the 3 % rule (by code id as stored by `World::new`): vending, -featured, -merkle-wl,
+/// -merkle-wl-featured, token-merge
+fn enforces_3pct(code: u64) -> bool {
+    matches!(code, 1 | 2 | 5 | 6 | 10)
+}
+
+/// governance parameters as read back from the REAL factory
+#[derive(Clone, Debug)]
+struct P {
+    kind: FactoryKind,
+    code: u64,
+    allowed: Vec<u64>,
+    frozen: bool,
+    fee: (u64, u128),
+    minp: (u64, u128),
+    off: u64,
+    maxtok: u64,
+    maxper: u64,
+    airp: (u64, u128),
+}
+impl P {
+    fn obs(&self) -> String {
+        format!(
+            "code={} allowed={} frozen={} fee={} minp={} off={} maxtok={} maxper={} airp={}",
+            self.code,
+            fmt_list(&self.allowed),
+            self.frozen as u8,
+            coin_s(self.fee),
+            coin_s(self.minp),
+            self.off,
+            self.maxtok,
+            self.maxper,
+            coin_s(self.airp)
+        )
+    }
+}
+
+type Balances = BTreeMap<(String, String), u128>;
+
+// ------------------------------------------------------------------------------------------------ the SUT
+
+struct S {
+    w: World,
+    log: Vec<String>,
+    fkind: BTreeMap<u64, FactoryKind>,
+    ncontracts: u64,
+    viol: Option<(String, String)>,
+    panics: u64,
+}
+
+impl S {
+    fn new() -> S {
+        S { w: World::new(0), log: vec![], fkind: BTreeMap::new(), ncontracts: 0, viol: None, panics: 0 }
+    }
+    fn reset(&mut self) {
+        self.w = World::new(0);
+        self.log.clear();
+        self.fkind.clear();
+        self.ncontracts = 0;
+        self.viol = None;
+    }
+    /// every (account, denom) balance in the bank module (cw-multi-test 1.2 has no supply query)
+    fn balances(&self) -> Balances {
+        self.w.app.read_module(|_r, _a, st| {
+            let mut pre: Vec<u8> = vec![0, 4];
+            pre.extend_from_slice(b"bank");
+            pre.extend_from_slice(&[0, 8]);
+            pre.extend_from_slice(b"balances");
+            let mut end = pre.clone();
+            *end.last_mut().unwrap() += 1;
+            let mut out = Balances::new();
+            for (k, v) in st.range(Some(&pre), Some(&end), cosmwasm_std::Order::Ascending) {
+                let who = String::from_utf8_lossy(&k[pre.len()..]).to_string();
+                let coins: Vec<cosmwasm_std::Coin> = serde_json::from_slice(&v).unwrap_or_default();
+                for c in coins {
+                    if !c.amount.is_zero() {
+                        out.insert((who.clone(), c.denom.clone()), c.amount.u128());
+                    }
+                }
+            }
+            out
+        })
+    }
+    fn supply_of(b: &Balances, d: &str) -> u128 {
+        b.iter().filter(|((_, dd), _)| dd == d).map(|(_, a)| *a).sum()
+    }
+    fn bal_of(b: &Balances, who: &str, d: &str) -> u128 {
+        b.get(&(who.to_string(), d.to_string())).copied().unwrap_or(0)
+    }
+    fn exists(&self, a: &str) -> bool {
+        self.w.app.wrap().query_wasm_contract_info(a).is_ok()
+    }
+    fn recount(&mut self) -> u64 {
+        // contracts are named contract{k} in instantiation order; a rolled-back transaction gives its numbers back
+        let mut k = self.ncontracts;
+        while k > 0 && !self.exists(&format!("contract{}", k - 1)) {
+            k -= 1;
+        }
+        while self.exists(&format!("contract{}", k)) {
+            k += 1;
+        }
+        self.ncontracts = k;
+        k
+    }
+    fn read_params(&self, f: &str, kind: FactoryKind) -> Option<P> {
+        let v = self.w.query(f, &json!({"params":{}})).ok()?;
+        let p = &v["params"];
+        let ext = if kind == FactoryKind::TokenMerge { p } else { &p["extension"] };
+        Some(P {
+            kind,
+            code: p["code_id"].as_u64()?,
+            allowed: p["allowed_sg721_code_ids"].as_array()?.iter().filter_map(|x| x.as_u64()).collect(),
+            frozen: p["frozen"].as_bool()?,
+            fee: jcoin_v(&p["creation_fee"]),
+            minp: jcoin_v(&p["min_mint_price"]),
+            off: p["max_trading_offset_secs"].as_u64()?,
+            maxtok: ext["max_token_limit"].as_u64().unwrap_or(0),
+            maxper: ext["max_per_address_limit"].as_u64().unwrap_or(0),
+            airp: jcoin_v(&ext["airdrop_mint_price"]),
+        })
+    }
+    fn bank_obs(&mut self, f: &str, sender: &str, fd: u64) -> String {
+        let b = self.balances();
+        let fds = denom(fd);
+        let nat = denom(0);
+        let dao = addr(2);
+        let n = self.recount();
+        format!(
+            "bal={},{},{},{},{},{},{} sup={},{} next={}",
+            S::bal_of(&b, sender, &fds),
+            S::bal_of(&b, sender, &nat),
+            S::bal_of(&b, f, &fds),
+            S::bal_of(&b, f, &nat),
+            S::bal_of(&b, POOL, &nat),
+            S::bal_of(&b, &dao, &fds),
+            S::bal_of(&b, &dao, &nat),
+            S::supply_of(&b, &nat),
+            S::supply_of(&b, &fds),
+            n
+        )
+    }
+    fn info_obs(&self, a: &str) -> String {
+        match self.w.app.wrap().query_wasm_contract_info(a) {
+            Ok(i) => format!("{}:{}:{}", i.code_id, addr_id(&i.creator), i.admin.map(|x| addr_id(&x).to_string()).unwrap_or("-".into())),
+            Err(_) => "-".into(),
+        }
+    }
+    /// factory,admin,sg721,sg721code,n,per,start,end,price,wl,pay
+    fn minter_obs(&self, m: &str) -> String {
+        let Ok(v) = self.w.query(m, &json!({"config":{}})) else { return "-".into() };
+        let inner = if v.get("config").is_some() { v["config"].clone() } else { v.clone() };
+        let sg = if v.get("sg721_address").is_some() { &v["sg721_address"] } else { &v["collection_address"] };
+        let code = if v.get("sg721_code_id").is_some() { &v["sg721_code_id"] } else { &inner["collection_code_id"] };
+        let price = if inner["mint_price"].is_object() { coin_s(jcoin_v(&inner["mint_price"])) } else { "-".into() };
+        format!(
+            "{},{},{},{},{},{},{},{},{},{},{}",
+            jaddr(&inner["factory"]),
+            jaddr(&v["admin"]),
+            jaddr(sg),
+            jnum(code),
+            jnum(&v["num_tokens"]),
+            jnum(&v["per_address_limit"]),
+            jnum(&v["start_time"]),
+            jnum(&v["end_time"]),
+            price,
+            jaddr(&v["whitelist"]),
+            jaddr(&v["payment_address"])
+        )
+    }
+    /// owner,creator,trade,royshare,roypay
+    fn coll_obs(&self, c: &str) -> String {
+        // sg721-updatable has no `Ownership` query; `Minter` (= the cw-ownable owner) exists on all four collections
+        let own = self.w.query(c, &json!({"minter":{}})).unwrap_or(Value::Null);
+        let Ok(ci) = self.w.query(c, &json!({"collection_info":{}})) else { return "-".into() };
+        let (rs, rp) = if ci["royalty_info"].is_object() {
+            (dec_atomics(ci["royalty_info"]["share"].as_str().unwrap_or("0")).to_string(), jaddr(&ci["royalty_info"]["payment_address"]))
+        } else {
+            ("-".into(), "-".into())
+        };
+        format!("{},{},{},{},{}", jaddr(&own["minter"]), jaddr(&ci["creator"]), jnum(&ci["start_trading_time"]), rs, rp)
+    }
+
+    fn rebuild(&mut self) {
+        // a panic inside the contracts: start over and replay the case's op log (the failed op is not in it yet)
+        self.panics += 1;
+        let log = std::mem::take(&mut self.log);
+        self.reset();
+        for l in &log {
+            let _ = self.exec_inner(l);
+            self.log.push(l.clone());
+        }
+        self.viol = None;
+    }
+
+    fn create_json(kind: FactoryKind, line: &str) -> Value {
+        let creator = match AF::parse(line, "creator") {
+            AF::Id(i) => addr(i),
+            _ => BAD_ADDR.to_string(),
+        };
+        let url = |ok: bool, good: &str| if ok { good.to_string() } else { BAD_URL.to_string() };
+        let link = match kv(line, "link") {
+            Some("1") => Value::String("https://example.com/external.html".into()),
+            Some("0") => Value::String(BAD_URL.into()),
+            _ => Value::Null,
+        };
+        let roy = match kv_opt_u128(line, "roys").flatten() {
+            Some(s) => json!({"payment_address": match AF::parse(line, "royp") { AF::Id(i) => addr(i), _ => BAD_ADDR.to_string() }, "share": dec_str(s)}),
+            None => Value::Null,
+        };
+        let cp = json!({
+            "code_id": kv_u64(line, "sg721").unwrap_or(0), "name": "Collection", "symbol": "COL",
+            "info": {
+                "creator": creator, "description": "d".repeat(kv_u64(line, "desc").unwrap_or(0) as usize),
+                "image": url(kv_bool(line, "img").unwrap_or(true), "https://example.com/image.png"),
+                "external_link": link, "explicit_content": false,
+                "start_trading_time": jopt_time(kv_opt_u64(line, "trade").flatten()),
+                "royalty_info": roy,
+            }
+        });
+        let n = kv_opt_u64(line, "n").flatten();
+        let per = kv_u64(line, "per").unwrap_or(0);
+        let start = kv_u64(line, "start").unwrap_or(0);
+        let price = kv_coin(line, "price").unwrap_or((0, 0));
+        let uri_ok = kv_bool(line, "uri").unwrap_or(true);
+        let init = match kind {
+            FactoryKind::Vending => json!({
+                "base_token_uri": url(uri_ok, GOOD_URI), "payment_address": AF::parse(line, "pay").json(),
+                "start_time": jtime(start), "num_tokens": n.unwrap_or(0), "mint_price": jcoin(price),
+                "per_address_limit": per, "whitelist": AF::parse(line, "wl").json()}),
+            FactoryKind::OpenEdition => {
+                let nft_ok = kv_bool(line, "nft").unwrap_or(true);
+                let token_uri = if nft_ok { Value::String(url(uri_ok, "ipfs://bafybeigi3bwpvyvsmnbj46ra4hyffcxdeaj6ntfk5jpic5mx27x6ih2qvq/1.json")) } else { Value::Null };
+                json!({
+                    "nft_data": {"nft_data_type": "off_chain_metadata", "extension": null, "token_uri": token_uri},
+                    "start_time": jtime(start), "end_time": jopt_time(kv_opt_u64(line, "end").flatten()), "mint_price": jcoin(price),
+                    "per_address_limit": per, "num_tokens": n,
+                    "payment_address": AF::parse(line, "pay").json(), "whitelist": AF::parse(line, "wl").json()})
+            }
+            FactoryKind::TokenMerge => json!({
+                "base_token_uri": url(uri_ok, GOOD_URI), "start_time": jtime(start), "num_tokens": n.unwrap_or(0),
+                "mint_tokens": [{"collection": addr(1000), "amount": 1}], "per_address_limit": per}),
+            FactoryKind::Base => Value::Null,
+        };
+        json!({"create_minter": {"init_msg": init, "collection_params": cp}})
+    }
+
+    fn update_json(kind: FactoryKind, line: &str) -> Value {
+        let list = |k: &str| -> Value {
+            match kv(line, k) {
+                Some("x") | None => Value::Null,
+                _ => json!(kv_list(line, k).unwrap_or_default().iter().map(|x| *x as u64).collect::<Vec<u64>>()),
+            }
+        };
+        let optn = |k: &str| -> Value { kv_opt_u64(line, k).flatten().map(|x| json!(x)).unwrap_or(Value::Null) };
+        let optc = |k: &str| -> Value { kv_opt_coin(line, k).map(jcoin).unwrap_or(Value::Null) };
+        let frozen = match kv(line, "frozen") {
+            Some("1") => json!(true),
+            Some("0") => json!(false),
+            _ => Value::Null,
+        };
+        let mut m = json!({
+            "code_id": optn("code"), "add_sg721_code_ids": list("add"), "rm_sg721_code_ids": list("rm"), "frozen": frozen,
+            "creation_fee": optc("fee"), "max_trading_offset_secs": optn("off")});
+        if kind != FactoryKind::TokenMerge {
+            m["min_mint_price"] = optc("minp");
+            m["mint_fee_bps"] = Value::Null;
+        }
+        m["extension"] = match kind {
+            FactoryKind::Vending | FactoryKind::TokenMerge => json!({
+                "max_token_limit": optn("maxtok"), "max_per_address_limit": optn("maxper"), "airdrop_mint_price": optc("airp"),
+                "airdrop_mint_fee_bps": null, "shuffle_fee": null}),
+            FactoryKind::OpenEdition => json!({
+                "max_token_limit": optn("maxtok"), "max_per_address_limit": optn("maxper"), "min_mint_price": null,
+                "airdrop_mint_fee_bps": null, "airdrop_mint_price": optc("airp"), "dev_fee_address": null}),
+            FactoryKind::Base => Value::Null,
+        };
+        json!({"update_params": m})
+    }
+
+    /// returns (model line, output); sets `self.viol` when the PROPERTY is violated on the real code
+    fn exec_inner(&mut self, line: &str) -> (String, String) {
+        let op = line.split_whitespace().next().unwrap_or("");
+        match op {
+            "time" => {
+                self.w.set_time(kv_u64(line, "t").unwrap_or(0));
+                (line.to_string(), "ok".into())
+            }
+            "fund" => {
+                self.w.fund(&addr(kv_u64(line, "who").unwrap()), kv_u64(line, "denom").unwrap(), kv_u128(line, "amt").unwrap());
+                (line.to_string(), "ok".into())
+            }
+            "mkfactory" => {
+                let kind = fk_of(kv_u64(line, "kind").unwrap());
+                let p = FactoryParams {
+                    code_id: kv_u64(line, "code").unwrap(),
+                    allowed_sg721_code_ids: kv_list(line, "allowed").unwrap().iter().map(|x| *x as u64).collect(),
+                    frozen: kv_bool(line, "frozen").unwrap(),
+                    creation_fee: kv_coin(line, "fee").unwrap(),
+                    min_mint_price: kv_coin(line, "minp").unwrap(),
+                    mint_fee_bps: 1000,
+                    max_trading_offset_secs: kv_u64(line, "off").unwrap(),
+                    max_token_limit: kv_u64(line, "maxtok").unwrap() as u32,
+                    max_per_address_limit: kv_u64(line, "maxper").unwrap() as u32,
+                    airdrop_mint_price: kv_coin(line, "airp").unwrap(),
+                    airdrop_mint_fee_bps: 10_000,
+                    shuffle_fee: (0, 500_000_000),
+                    dev_fee_address: 60,
+                };
+                match self.w.new_factory(kind, &p) {
+                    Ok(f) => {
+                        let id = addr_id(&f);
+                        self.fkind.insert(id, kind);
+                        self.recount();
+                        let obs = self.read_params(&f, kind).map(|p| p.obs()).unwrap_or("-".into());
+                        (line.to_string(), format!("ok f={} {}", id, obs))
+                    }
+                    Err(_) => (line.to_string(), "err".into()),
+                }
+            }
+            "params" => {
+                let f = kv_u64(line, "f").unwrap();
+                let Some(kind) = self.fkind.get(&f).copied() else { return (line.to_string(), "err -".into()) };
+                let fa = addr(f);
+                let r = self.w.sudo(&fa, &S::update_json(kind, line));
+                let obs = self.read_params(&fa, kind).map(|p| p.obs()).unwrap_or("-".into());
+                (line.to_string(), format!("{} {}", if r.is_ok() { "ok" } else { "err" }, obs))
+            }
+            "mkwl" => {
+                let flex = kv_bool(line, "flex").unwrap();
+                let (s, e) = (kv_u64(line, "start").unwrap(), kv_u64(line, "end").unwrap());
+                let nat = denom(0);
+                let b0 = self.balances();
+                let st = WlStage { start: s, end: e, mint_price: (0, 60_000_000), per_address_limit: 2, mint_count_limit: None, members: vec![(20, 1)], merkle_root: String::new() };
+                let a = WlArgs { admin: 11, member_limit: 1000, admins_mutable: true, whale_cap: None, stages: vec![st] };
+                let r = self.w.new_whitelist(if flex { WlKind::Flex } else { WlKind::Plain }, &a);
+                // whatever stays with the whitelist admin is not tracked by the model: burn it so the books stay comparable
+                let left = self.w.balance(&addr(11), 0);
+                if left > 0 {
+                    let _ = cw_multi_test::Executor::execute(&mut self.w.app, cosmwasm_std::Addr::unchecked(addr(11)), cosmwasm_std::BankMsg::Burn { amount: vec![cosmwasm_std::coin(left, nat.clone())] }.into());
+                }
+                let b1 = self.balances();
+                let poold = S::bal_of(&b1, POOL, &nat) - S::bal_of(&b0, POOL, &nat);
+                let supd = S::supply_of(&b1, &nat).saturating_sub(S::supply_of(&b0, &nat));
+                self.recount();
+                let base = line.split(" ok=").next().unwrap().to_string();
+                match r {
+                    Ok(wl) => (format!("{base} ok=1 poold={poold} supd={supd}"), format!("ok wl={}", addr_id(&wl))),
+                    Err(_) => (format!("{base} ok=0 poold=0 supd=0"), "err".into()),
+                }
+            }
+            "create" => self.do_create(line),
+            "setlimit" => self.do_setlimit(line),
+            _ => (line.to_string(), "bad-op".into()),
+        }
+    }
+
+    fn do_setlimit(&mut self, line: &str) -> (String, String) {
+        let m = addr(kv_u64(line, "m").unwrap());
+        let sender = addr(kv_u64(line, "sender").unwrap());
+        let funds: Vec<(u64, u128)> = kv_pairs(line, "funds").unwrap().into_iter().map(|(d, a)| (d as u64, a)).collect();
+        let l = kv_u64(line, "limit").unwrap();
+        let r = self.w.exec(&sender, &m, &json!({"update_per_address_limit": {"per_address_limit": l}}), &funds);
+        if let Err(e) = &r {
+            if e.starts_with("panic") {
+                self.rebuild();
+            }
+        }
+        let cfg = self.w.query(&m, &json!({"config":{}})).unwrap_or(Value::Null);
+        let per = jnum(&cfg["per_address_limit"]);
+        if r.is_ok() {
+            // monitor: "a later per-address-limit update on the minter is held to the same bounds"
+            let code = self.w.app.wrap().query_wasm_contract_info(&m).map(|i| i.code_id).unwrap_or(0);
+            let fac = cfg["factory"].as_str().unwrap_or("").to_string();
+            let kind = self.fkind.get(&addr_id(&fac)).copied();
+            if let Some(p) = kind.and_then(|k| self.read_params(&fac, k)) {
+                let key = |pred: &str| format!("{}/update_per_address_limit/{}", ALL_MINTERS.get((code as usize).wrapping_sub(1)).map(|k| k.name()).unwrap_or("minter"), pred);
+                if l < 1 || l > p.maxper {
+                    self.viol = Some((key("outside-governance-bound"), format!("limit {l} accepted, factory max_per_address_limit {} (`{line}`)", p.maxper)));
+                } else if enforces_3pct(code) {
+                    let n = cfg["num_tokens"].as_u64().unwrap_or(0);
+                    let bound = if n < 100 { 3 } else { ceil3pct(n) };
+                    if l > bound {
+                        self.viol = Some((key("outside-3pct"), format!("limit {l} accepted for {n} tokens (3% bound {bound}) (`{line}`)")));
+                    }
+                }
+                if cfg["admin"].as_str() != Some(sender.as_str()) {
+                    self.viol = Some((key("not-admin"), format!("limit updated by {sender}, admin is {} (`{line}`)", cfg["admin"])));
                 }
             }
         }
-        tot
+        (line.to_string(), format!("{} per={}", if r.is_ok() { "ok" } else { "err" }, per))
+    }
+
+    fn do_create(&mut self, line: &str) -> (String, String) {
+        let f = kv_u64(line, "f").unwrap();
+        let sender_id = kv_u64(line, "sender").unwrap();
+        let fa = addr(f);
+        let sender = addr(sender_id);
+        let funds: Vec<(u64, u128)> = kv_pairs(line, "funds").unwrap().into_iter().map(|(d, a)| (d as u64, a)).collect();
+        let Some(kind) = self.fkind.get(&f).copied() else {
+            let o = self.bank_obs(&fa, &sender, 0);
+            return (line.to_string(), format!("err {o}"));
+        };
+        let p = self.read_params(&fa, kind).expect("factory params");
+        let b0 = self.balances();
+        let n0 = self.recount();
+        let now = self.w.time();
+        let msg = S::create_json(kind, line);
+        let res = self.w.exec(&sender, &fa, &msg, &funds);
+        if let Err(e) = &res {
+            if e.starts_with("panic") {
+                self.rebuild();
+            }
+        }
+        let b1 = self.balances();
+        let n1 = self.recount();
+        let bank = self.bank_obs(&fa, &sender, p.fee.0);
+        let key = |pred: &str| format!("{}/create_minter/{}", fk_name(kind), pred);
+        let mut viol: Option<(String, String)> = None;
+        let mut bad = |pred: &str, what: String| {
+            if viol.is_none() {
+                viol = Some((key(pred), format!("{what} — params [{}] now={now} op `{line}`", p.obs())));
+            }
+        };
+        let out = match res {
+            Err(_) => {
+                // "on rejection nothing is created and no funds move"
+                if b0 != b1 {
+                    bad("rejected-moved-funds", "rejected create changed bank balances".into());
+                }
+                if n1 != n0 {
+                    bad("rejected-created-contract", format!("rejected create changed the contract registry {n0} -> {n1}"));
+                }
+                format!("err {bank}")
+            }
+            Ok(r) => {
+                let addrs: Vec<String> = r.events.iter().filter(|e| e.ty == "instantiate").filter_map(|e| e.attributes.iter().find(|at| at.key == "_contract_address" || at.key == "_contract_addr").map(|at| at.value.clone())).collect();
+                let (m, c) = (addrs.first().cloned().unwrap_or_default(), addrs.get(1).cloned().unwrap_or_default());
+                // ---- monitor: preconditions the property lists
+                if p.frozen {
+                    bad("created-while-frozen", "minter created while the factory is frozen".into());
+                }
+                let sg721 = kv_u64(line, "sg721").unwrap_or(0);
+                if !p.allowed.contains(&sg721) {
+                    bad("disallowed-code-id", format!("collection code id {sg721} not on the allow-list"));
+                }
+                let paid = match funds.as_slice() {
+                    [(d, a)] if *d == p.fee.0 => Some(*a),
+                    _ => None,
+                };
+                match paid {
+                    None => bad("wrong-coins", "created without exactly one coin in the fee denom".into()),
+                    Some(a) if a < p.fee.1 => bad("underpaid", format!("paid {a} < fee {}", p.fee.1)),
+                    Some(a) if kind == FactoryKind::OpenEdition && a != p.fee.1 => bad("not-exact-fee", format!("open edition paid {a} != fee {}", p.fee.1)),
+                    _ => {}
+                }
+                let n = kv_opt_u64(line, "n").flatten();
+                let per = kv_u64(line, "per").unwrap_or(0);
+                let price = kv_coin(line, "price").unwrap_or((0, 0));
+                let start = kv_u64(line, "start").unwrap_or(0);
+                let end = kv_opt_u64(line, "end").flatten();
+                match kind {
+                    FactoryKind::Vending | FactoryKind::TokenMerge => {
+                        let nn = n.unwrap_or(0);
+                        if nn < 1 || nn > p.maxtok {
+                            bad("token-count-out-of-bounds", format!("num_tokens {nn} not in 1..={}", p.maxtok));
+                        }
+                        if per < 1 || per > p.maxper {
+                            bad("per-address-limit-out-of-bounds", format!("per_address_limit {per} not in 1..={}", p.maxper));
+                        }
+                        if enforces_3pct(p.code) {
+                            let bound = if nn < 100 { 3 } else { ceil3pct(nn) };
+                            if per > bound {
+                                bad("outside-3pct", format!("per_address_limit {per} > 3% bound {bound} of {nn} tokens"));
+                            }
+                        }
+                        if kind == FactoryKind::Vending && (price.0 != p.minp.0 || price.1 < p.minp.1) {
+                            bad("price-below-min-or-wrong-denom", format!("mint price {} vs minimum {}", coin_s(price), coin_s(p.minp)));
+                        }
+                    }
+                    FactoryKind::OpenEdition => {
+                        if let Some(nn) = n {
+                            if nn < 1 || nn > p.maxtok {
+                                bad("token-count-out-of-bounds", format!("num_tokens {nn} not in 1..={}", p.maxtok));
+                            }
+                        }
+                        if per < 1 || per > p.maxper {
+                            bad("per-address-limit-out-of-bounds", format!("per_address_limit {per} not in 1..={}", p.maxper));
+                        }
+                        if price.0 != p.minp.0 || price.1 < p.minp.1 {
+                            bad("price-below-min-or-wrong-denom", format!("mint price {} vs minimum {}", coin_s(price), coin_s(p.minp)));
+                        }
+                        if start <= now {
+                            bad("start-not-in-future", format!("start {start} <= now {now}"));
+                        }
+                        if let Some(e) = end {
+                            if e <= start {
+                                bad("end-not-after-start", format!("end {e} <= start {start}"));
+                            }
+                        }
+                        if end.is_none() && n.is_none() {
+                            bad("no-end-and-no-cap", "neither end time nor token cap".into());
+                        }
+                        if price.1 == 0 && n.is_none() {
+                            bad("zero-price-without-cap", "zero mint price without a token cap".into());
+                        }
+                    }
+                    FactoryKind::Base => {}
+                }
+                // ---- monitor: wiring
+                if n1 != n0 + 2 {
+                    bad("not-exactly-two-contracts", format!("registry grew {n0} -> {n1}"));
+                }
+                let creator = match AF::parse(line, "creator") {
+                    AF::Id(i) => addr(i),
+                    _ => String::new(),
+                };
+                let mi = self.w.app.wrap().query_wasm_contract_info(&m).ok();
+                let ci = self.w.app.wrap().query_wasm_contract_info(&c).ok();
+                let cfg = self.w.query(&m, &json!({"config":{}})).unwrap_or(Value::Null);
+                let inner = if cfg.get("config").is_some() { cfg["config"].clone() } else { cfg.clone() };
+                let sg_in_minter = cfg.get("sg721_address").or(cfg.get("collection_address")).and_then(|x| x.as_str()).unwrap_or("").to_string();
+                let coll_minter = self.w.query(&c, &json!({"minter":{}})).ok().and_then(|v| v["minter"].as_str().map(String::from)).unwrap_or_default();
+                // (sg721-updatable does not expose `Ownership`; where it exists it must agree)
+                let coll_owner = self.w.query(&c, &json!({"ownership":{}})).ok().map(|v| v["owner"].as_str().map(String::from).unwrap_or_default()).unwrap_or(m.clone());
+                let coll_info = self.w.query(&c, &json!({"collection_info":{}})).unwrap_or(Value::Null);
+                match (&mi, &ci) {
+                    (Some(mi), Some(ci)) => {
+                        if mi.creator != fa || mi.code_id != p.code {
+                            bad("minter-not-from-this-factory", format!("minter {m}: instantiated by {} with code {}", mi.creator, mi.code_id));
+                        }
+                        if ci.creator != m || ci.code_id != sg721 {
+                            bad("collection-not-from-this-minter", format!("collection {c}: instantiated by {} with code {}", ci.creator, ci.code_id));
+                        }
+                        if ci.admin.as_deref() != Some(creator.as_str()) {
+                            bad("collection-admin-not-creator", format!("collection wasm admin {:?}, creator {creator}", ci.admin));
+                        }
+                        if mi.admin.as_deref() != Some(sender.as_str()) {
+                            bad("minter-wasm-admin-not-sender", format!("minter wasm admin {:?}, sender {sender}", mi.admin));
+                        }
+                    }
+                    _ => bad("new-contracts-missing", format!("minter `{m}` / collection `{c}` not in the registry")),
+                }
+                if inner["factory"].as_str() != Some(fa.as_str()) {
+                    bad("minter-factory-link", format!("minter config factory {} != {fa}", inner["factory"]));
+                }
+                if sg_in_minter != c {
+                    bad("minter-collection-link", format!("minter records collection `{sg_in_minter}`, created `{c}`"));
+                }
+                if coll_minter != m || coll_owner != m {
+                    bad("collection-minter-link", format!("collection minter `{coll_minter}` / owner `{coll_owner}`, created minter `{m}`"));
+                }
+                if coll_info["creator"].as_str() != Some(creator.as_str()) {
+                    bad("collection-creator", format!("collection creator {} != {creator}", coll_info["creator"]));
+                }
+                if p.code != 11 && cfg["admin"].as_str() != Some(creator.as_str()) {
+                    bad("minter-admin-not-creator", format!("minter admin {} != creator {creator}", cfg["admin"]));
+                }
+                // ---- monitor: fee disposal ("never less than the fee, never more than was paid")
+                if let Some(paid) = paid {
+                    let fd = denom(p.fee.0);
+                    let dao = addr(2);
+                    let d = |who: &str| S::bal_of(&b1, who, &fd) as i128 - S::bal_of(&b0, who, &fd) as i128;
+                    let burned = S::supply_of(&b0, &fd) as i128 - S::supply_of(&b1, &fd) as i128;
+                    let disposed = burned + d(POOL) + d(&dao);
+                    if disposed < p.fee.1 as i128 {
+                        bad("fee-disposed-less-than-fee", format!("burned {burned} + pool {} + dao {} = {disposed} < fee {}", d(POOL), d(&dao), p.fee.1));
+                    }
+                    if disposed > paid as i128 {
+                        bad("fee-disposed-more-than-paid", format!("disposed {disposed} > paid {paid}"));
+                    }
+                    if d(&sender) != -(paid as i128) {
+                        bad("payer-delta", format!("payer balance changed by {} for a payment of {paid}", d(&sender)));
+                    }
+                    if d(&fa) != paid as i128 - disposed {
+                        bad("factory-delta", format!("factory balance changed by {}, paid {paid}, disposed {disposed}", d(&fa)));
+                    }
+                    // nothing else moved
+                    let mut keys: Vec<&(String, String)> = b0.keys().chain(b1.keys()).collect();
+                    keys.sort();
+                    keys.dedup();
+                    for k in keys {
+                        let same = b0.get(k) == b1.get(k);
+                        let expected = k.1 == fd && (k.0 == sender || k.0 == fa || k.0 == POOL || k.0 == dao);
+                        if !same && !expected {
+                            bad("unexpected-transfer", format!("balance of {:?} changed {:?} -> {:?}", k, b0.get(k), b1.get(k)));
+                        }
+                    }
+                }
+                format!(
+                    "ok m={} c={} mi={} ci={} cfg={} col={} {}",
+                    addr_id(&m),
+                    addr_id(&c),
+                    self.info_obs(&m),
+                    self.info_obs(&c),
+                    self.minter_obs(&m),
+                    self.coll_obs(&c),
+                    bank
+                )
+            }
+        };
+        if self.viol.is_none() {
+            self.viol = viol;
+        }
+        (line.to_string(), out)
+    }
+}
+
+impl Sut for S {
+    fn begin(&mut self, header: &str) -> (String, String) {
+        self.reset();
+        (header.to_string(), "case".into())
+    }
+    fn exec(&mut self, line: &str) -> (String, String) {
+        self.viol = None;
+        let r = self.exec_inner(line);
+        self.log.push(line.to_string());
+        r
+    }
+    fn monitor(&mut self) -> Option<(String, String)> {
+        self.viol.take()
+    }
+}
+
+// ------------------------------------------------------------------------------------------------ generators
+
+#[derive(Clone, Debug)]
+struct Cr {
+    f: u64,
+    sender: u64,
+    funds: Vec<(u64, u128)>,
+    sg721: u64,
+    creator: AF,
+    n: Option<u64>,
+    per: u64,
+    start: u64,
+    end: Option<u64>,
+    price: (u64, u128),
+    pay: AF,
+    wl: AF,
+    trade: Option<u64>,
+    roys: Option<u128>,
+    royp: AF,
+    desc: u64,
+    img: bool,
+    link: Option<bool>,
+    uri: bool,
+    nft: bool,
+}
+impl Cr {
+    fn line(&self) -> String {
+        format!(
+            "create f={} sender={} funds={} sg721={} creator={} n={} per={} start={} end={} price={} pay={} wl={} trade={} roys={} royp={} desc={} img={} link={} uri={} nft={}",
+            self.f,
+            self.sender,
+            fmt_pairs(&self.funds),
+            self.sg721,
+            self.creator.s(),
+            fmt_opt(&self.n),
+            self.per,
+            self.start,
+            fmt_opt(&self.end),
+            coin_s(self.price),
+            self.pay.s(),
+            self.wl.s(),
+            fmt_opt(&self.trade),
+            fmt_opt(&self.roys),
+            self.royp.s(),
+            self.desc,
+            self.img as u8,
+            match self.link {
+                None => "-".to_string(),
+                Some(b) => (b as u8).to_string(),
+            },
+            self.uri as u8,
+            self.nft as u8
+        )
+    }
+}
+
+#[derive(Clone, Copy, Debug, PartialEq, Eq)]
+enum Fault {
+    None,
+    FundsUnder,
+    FundsOver1,
+    FundsOverLots,
+    FundsEmpty,
+    FundsWrongDenom,
+    FundsTwoCoins,
+    FundsZero,
+    CodeNotAllowed,
+    NZero,
+    NOver,
+    PerZero,
+    PerOverMax,
+    PerOver3pct,
+    PriceUnder,
+    PriceDenom,
+    StartPast,
+    StartNow,
+    StartBeforeGenesis,
+    EndAtStart,
+    EndBeforeStart,
+    NoEndNoCap,
+    NoCap,
+    ZeroPriceNoCap,
+    BadCreator,
+    BadPay,
+    BadWlString,
+    WlOther,
+    WlNotAContract,
+    TradeOver,
+    TradeAt,
+    RoyOver,
+    RoyMax,
+    RoyBadPay,
+    DescLong,
+    DescMax,
+    BadImg,
+    BadLink,
+    BadUri,
+    BadNft,
+    OtherCreator,
+    JunkAllowedCode,
+    PoorSender,
+}
+const FAULTS: [Fault; 43] = [
+    Fault::None,
+    Fault::FundsUnder,
+    Fault::FundsOver1,
+    Fault::FundsOverLots,
+    Fault::FundsEmpty,
+    Fault::FundsWrongDenom,
+    Fault::FundsTwoCoins,
+    Fault::FundsZero,
+    Fault::CodeNotAllowed,
+    Fault::NZero,
+    Fault::NOver,
+    Fault::PerZero,
+    Fault::PerOverMax,
+    Fault::PerOver3pct,
+    Fault::PriceUnder,
+    Fault::PriceDenom,
+    Fault::StartPast,
+    Fault::StartNow,
+    Fault::StartBeforeGenesis,
+    Fault::EndAtStart,
+    Fault::EndBeforeStart,
+    Fault::NoEndNoCap,
+    Fault::NoCap,
+    Fault::ZeroPriceNoCap,
+    Fault::BadCreator,
+    Fault::BadPay,
+    Fault::BadWlString,
+    Fault::WlOther,
+    Fault::WlNotAContract,
+    Fault::TradeOver,
+    Fault::TradeAt,
+    Fault::RoyOver,
+    Fault::RoyMax,
+    Fault::RoyBadPay,
+    Fault::DescLong,
+    Fault::DescMax,
+    Fault::BadImg,
+    Fault::BadLink,
+    Fault::BadUri,
+    Fault::BadNft,
+    Fault::OtherCreator,
+    Fault::JunkAllowedCode,
+    Fault::PoorSender,
+];
+
+#[derive(Clone, Debug)]
+struct Wl {
+    id: u64,
+    flex: bool,
+    start: u64,
+    end: u64,
+}
+
+fn three_bound(code: u64, n: u64, maxper: u64) -> u64 {
+    if enforces_3pct(code) {
+        maxper.min(if n < 100 { 3 } else { ceil3pct(n) })
+    } else {
+        maxper
+    }
+}
+
+/// a create message that is valid under `p` at `now` whenever one exists (boundary values preferred)
+fn baseline(rng: &mut Rng, f: u64, p: &P, now: u64, wls: &[Wl]) -> Cr {
+    let sender = *rng.pick(&[10u64, 12]);
+    let creator = if rng.chance(2, 3) { sender } else { 13 };
+    let sg_ok: Vec<u64> = p.allowed.iter().copied().filter(|c| (16..=19).contains(c)).collect();
+    let sg721 = if sg_ok.is_empty() { 16 } else { *rng.pick(&sg_ok) };
+    let oe = p.kind == FactoryKind::OpenEdition;
+    // token count
+    let n_choices: Vec<u64> = [1u64, 2, 33, 34, 99, 100, 101, 133, 134, 167, p.maxtok.saturating_sub(1), p.maxtok].iter().copied().filter(|x| *x >= 1 && *x <= p.maxtok.max(1)).collect();
+    let mut n = Some(*rng.pick(&n_choices));
+    let mut end = None;
+    let start = if oe { now + *rng.pick(&[1u64, 2, 86_400 * NS]) } else { now.max(GENESIS) + *rng.pick(&[0u64, 0, 1, 86_400 * NS]) };
+    if oe {
+        end = if rng.chance(2, 3) { Some(start + *rng.pick(&[1u64, 7 * 86_400 * NS])) } else { None };
+        if end.is_some() && p.airp.1 != 0 && rng.chance(1, 3) {
+            n = None;
+        }
+    }
+    let bound = three_bound(p.code, n.unwrap_or(0), p.maxper);
+    let per_choices: Vec<u64> = [1u64, bound.saturating_sub(1), bound, bound].iter().copied().filter(|x| *x >= 1).collect();
+    let per = if per_choices.is_empty() { 1 } else { *rng.pick(&per_choices) };
+    let mut price = (p.minp.0, p.minp.1 + *rng.pick(&[0u128, 0, 1, 50_000_000]));
+    if oe && n.is_none() && price.1 == 0 {
+        price.1 = 1;
+    }
+    // whitelist: mostly none, sometimes a compatible one
+    let flex_needed = matches!(p.code, 3 | 4 | 8);
+    let compat: Vec<&Wl> = wls.iter().filter(|w| w.flex == flex_needed).collect();
+    let wl = if !compat.is_empty() && rng.chance(1, 3) && p.kind != FactoryKind::TokenMerge && p.kind != FactoryKind::Base { AF::Id(rng.pick(&compat).id) } else { AF::Absent };
+    let trade = match rng.below(6) {
+        0 => Some(start + p.off * NS),
+        1 => Some((start + p.off * NS).saturating_sub(1)),
+        2 => Some(start),
+        _ => None,
+    };
+    let (roys, royp) = match rng.below(6) {
+        0 => (Some(50_000_000_000_000_000u128), AF::Id(14)),
+        1 => (Some(0), AF::Id(14)),
+        _ => (None, AF::Absent),
+    };
+    Cr {
+        f,
+        sender,
+        funds: vec![p.fee],
+        sg721,
+        creator: AF::Id(creator),
+        n,
+        per,
+        start,
+        end,
+        price,
+        pay: if rng.chance(1, 5) { AF::Id(15) } else { AF::Absent },
+        wl,
+        trade,
+        roys,
+        royp,
+        desc: *rng.pick(&[0u64, 12, 100]),
+        img: true,
+        link: if rng.chance(1, 2) { Some(true) } else { None },
+        uri: true,
+        nft: true,
+    }
+}
+
+/// single-fault mutation; returns false when the fault makes no sense for this factory
+fn apply_fault(rng: &mut Rng, c: &mut Cr, fault: Fault, p: &P, now: u64, wls: &[Wl], other_contract: u64) -> bool {
+    let oe = p.kind == FactoryKind::OpenEdition;
+    let has_sale = matches!(p.kind, FactoryKind::Vending | FactoryKind::OpenEdition | FactoryKind::TokenMerge);
+    let has_price = matches!(p.kind, FactoryKind::Vending | FactoryKind::OpenEdition);
+    let has_wl = has_price;
+    match fault {
+        Fault::None => {}
+        Fault::FundsUnder => {
+            if p.fee.1 == 0 {
+                return false;
+            }
+            c.funds = vec![(p.fee.0, p.fee.1 - 1)]
+        }
+        Fault::FundsOver1 => c.funds = vec![(p.fee.0, p.fee.1 + 1)],
+        Fault::FundsOverLots => c.funds = vec![(p.fee.0, p.fee.1 + 1 + rng.sized_u128(40))],
+        Fault::FundsEmpty => c.funds = vec![],
+        Fault::FundsWrongDenom => c.funds = vec![((p.fee.0 + 1) % 3, p.fee.1.max(1))],
+        Fault::FundsTwoCoins => c.funds = vec![(p.fee.0, p.fee.1.max(1)), ((p.fee.0 + 1) % 3, 5)],
+        Fault::FundsZero => c.funds = vec![(p.fee.0, 0)],
+        Fault::CodeNotAllowed => {
+            let not: Vec<u64> = (16..=19).filter(|x| !p.allowed.contains(x)).collect();
+            c.sg721 = if not.is_empty() { 999 } else { *rng.pick(&not) }
+        }
+        Fault::NZero if has_sale => c.n = Some(0),
+        Fault::NOver if has_sale => c.n = Some(p.maxtok + 1),
+        Fault::PerZero if has_sale => c.per = 0,
+        Fault::PerOverMax if has_sale => c.per = p.maxper + 1,
+        Fault::PerOver3pct if has_sale => {
+            let n = c.n.unwrap_or(0);
+            c.per = (if n < 100 { 3 } else { ceil3pct(n) }) + 1
+        }
+        Fault::PriceUnder if has_price => {
+            if p.minp.1 == 0 {
+                return false;
+            }
+            c.price.1 = p.minp.1 - 1
+        }
+        Fault::PriceDenom if has_price => c.price.0 = (p.minp.0 + 1) % 3,
+        Fault::StartPast if has_sale => c.start = now.saturating_sub(1),
+        Fault::StartNow if has_sale => c.start = now,
+        Fault::StartBeforeGenesis if has_sale => c.start = GENESIS - 1,
+        Fault::EndAtStart if oe => c.end = Some(c.start),
+        Fault::EndBeforeStart if oe => c.end = Some(c.start.saturating_sub(1)),
+        Fault::NoEndNoCap if oe => {
+            c.end = None;
+            c.n = None
+        }
+        Fault::NoCap if oe => {
+            c.n = None;
+            if c.end.is_none() {
+                c.end = Some(c.start + 1)
+            }
+        }
+        Fault::ZeroPriceNoCap if oe => {
+            c.n = None;
+            c.price.1 = 0;
+            if c.end.is_none() {
+                c.end = Some(c.start + 1)
+            }
+        }
+        Fault::BadCreator => c.creator = AF::Bad,
+        Fault::BadPay if has_price => c.pay = AF::Bad,
+        Fault::BadWlString if has_wl => c.wl = AF::Bad,
+        Fault::WlOther if has_wl => {
+            if wls.is_empty() {
+                return false;
+            }
+            c.wl = AF::Id(rng.pick(wls).id)
+        }
+        Fault::WlNotAContract if has_wl => c.wl = AF::Id(other_contract),
+        Fault::TradeOver => c.trade = Some(c.start + p.off * NS + 1),
+        Fault::TradeAt => c.trade = Some(c.start + p.off * NS),
+        Fault::RoyOver => {
+            c.roys = Some(10u128.pow(18) + 1);
+            c.royp = AF::Id(14)
+        }
+        Fault::RoyMax => {
+            c.roys = Some(10u128.pow(18));
+            c.royp = AF::Id(14)
+        }
+        Fault::RoyBadPay => {
+            c.roys = Some(10u128.pow(16));
+            c.royp = AF::Bad
+        }
+        Fault::DescLong => c.desc = 513,
+        Fault::DescMax => c.desc = 512,
+        Fault::BadImg => c.img = false,
+        Fault::BadLink => c.link = Some(false),
+        Fault::BadUri if has_sale => c.uri = false,
+        Fault::BadNft if oe => c.nft = false,
+        Fault::OtherCreator => c.creator = AF::Id(if c.sender == 10 { 12 } else { 10 }),
+        Fault::JunkAllowedCode => {
+            // allow-listed, but not the code of a collection contract
+            let junk: Vec<u64> = p.allowed.iter().copied().filter(|x| !(16..=19).contains(x)).collect();
+            if junk.is_empty() {
+                return false;
+            }
+            c.sg721 = *rng.pick(&junk)
+        }
+        Fault::PoorSender => c.sender = 17, // an account that owns nothing (or, in the grid, exactly one fee)
+        _ => return false,
+    }
+    true
+}
+
+fn family_codes(k: FactoryKind) -> Vec<u64> {
+    match k {
+        FactoryKind::Vending => vec![1, 2, 3, 4, 5, 6],
+        FactoryKind::OpenEdition => vec![7, 8, 9],
+        FactoryKind::TokenMerge => vec![10],
+        FactoryKind::Base => vec![11],
+    }
+}
+
+fn mkfactory_line(p: &P) -> String {
+    format!("mkfactory kind={} {}", fk_idx(p.kind), p.obs())
+}
+
+fn random_params(rng: &mut Rng, kind: FactoryKind) -> P {
+    let fam = family_codes(kind);
+    let mut code = *rng.pick(&fam);
+    if rng.chance(1, 25) {
+        code = *rng.pick(&[1u64, 7, 10, 11, 16, 999]); // cross-family / not a minter / no such code
+    }
+    let mut allowed: Vec<u64> = vec![16, 17, 18, 19].into_iter().filter(|_| rng.chance(3, 4)).collect();
+    if rng.chance(1, 10) {
+        allowed.push(*rng.pick(&[20u64, 999, 11, 16]));
+    }
+    rng.shuffle(&mut allowed);
+    let fee_denom = if rng.chance(7, 10) { 0 } else { 1 };
+    let fee_amt = match rng.below(8) {
+        0 => rng.below(4) as u128,
+        1 => 2,
+        2 => 3,
+        _ => 1_000_000 + rng.sized_u128(34),
+    };
+    let minp = (0u64, *rng.pick(&[0u128, 1, 50_000_000, 50_000_000]));
+    let has_ext = kind != FactoryKind::Base;
+    P {
+        kind,
+        code,
+        allowed,
+        frozen: rng.chance(1, 12),
+        fee: (fee_denom, fee_amt),
+        minp: if kind == FactoryKind::TokenMerge { (0, 0) } else { minp },
+        off: *rng.pick(&[0u64, 1, 604_800]),
+        maxtok: if has_ext { *rng.pick(&[1u64, 2, 50, 99, 100, 101, 134, 200, 400]) } else { 0 },
+        maxper: if has_ext { *rng.pick(&[1u64, 2, 3, 4, 5, 6, 50]) } else { 0 },
+        airp: if has_ext { (0, *rng.pick(&[0u128, 0, 5])) } else { (0, 0) },
+    }
+}
+
+fn upd_line(f: u64, fields: &BTreeMap<&str, String>) -> String {
+    let g = |k: &str, none: &str| fields.get(k).cloned().unwrap_or(none.to_string());
+    format!(
+        "params f={f} code={} add={} rm={} frozen={} fee={} minp={} off={} maxtok={} maxper={} airp={}",
+        g("code", "-"),
+        g("add", "x"),
+        g("rm", "x"),
+        g("frozen", "-"),
+        g("fee", "-"),
+        g("minp", "-"),
+        g("off", "-"),
+        g("maxtok", "-"),
+        g("maxper", "-"),
+        g("airp", "-")
+    )
+}
+
+fn upd(f: u64, field: &'static str, val: String) -> String {
+    let mut m = BTreeMap::new();
+    m.insert(field, val);
+    upd_line(f, &m)
+}
+
+fn params_update_line(rng: &mut Rng, f: u64, p: &P) -> (String, String) {
+    let mut fields: BTreeMap<&str, String> = BTreeMap::new();
+    let fam = family_codes(p.kind);
+    let has_ext = p.kind != FactoryKind::Base;
+    let what = match rng.below(12) {
+        0 => {
+            fields.insert("frozen", (!p.frozen as u8).to_string());
+            "frozen"
+        }
+        1 => {
+            fields.insert("code", if rng.chance(1, 8) { rng.pick(&[1u64, 7, 10, 11, 999]).to_string() } else { rng.pick(&fam).to_string() });
+            "code"
+        }
+        2 => {
+            let add: Vec<u64> = (0..rng.range(1, 3)).map(|_| *rng.pick(&[16u64, 17, 18, 19, 19, 20])).collect();
+            fields.insert("add", fmt_list(&add));
+            "add"
+        }
+        3 => {
+            let rm: Vec<u64> = (0..rng.range(1, 2)).map(|_| *rng.pick(&[16u64, 17, 18, 19])).collect();
+            fields.insert("rm", fmt_list(&rm));
+            if rng.chance(1, 2) {
+                fields.insert("add", fmt_list(&[*rng.pick(&[16u64, 17, 18, 19])]));
+            }
+            "rm"
+        }
+        4 => {
+            let d = if rng.chance(1, 3) { 1 - p.fee.0.min(1) } else { p.fee.0 };
+            let a = match rng.below(4) {
+                0 => p.fee.1 + 1,
+                1 => p.fee.1.saturating_sub(1),
+                2 => rng.below(4) as u128,
+                _ => 1_000_000 + rng.sized_u128(30),
+            };
+            fields.insert("fee", coin_s((d, a)));
+            "fee"
+        }
+        5 if p.kind != FactoryKind::TokenMerge => {
+            let d = if rng.chance(1, 6) { 1 } else { 0 };
+            fields.insert("minp", coin_s((d, *rng.pick(&[0u128, 1, p.minp.1 + 1, p.minp.1.saturating_sub(1), 50_000_000]))));
+            "minp"
+        }
+        6 => {
+            fields.insert("off", rng.pick(&[0u64, 1, 60, 604_800]).to_string());
+            "off"
+        }
+        7 | 8 if has_ext => {
+            fields.insert("maxtok", rng.pick(&[p.maxtok + 1, p.maxtok.saturating_sub(1).max(1), 99, 100, 101, 200]).to_string());
+            "maxtok"
+        }
+        9 | 10 if has_ext => {
+            fields.insert("maxper", rng.pick(&[p.maxper + 1, p.maxper.saturating_sub(1).max(1), 3, 4, 50]).to_string());
+            "maxper"
+        }
+        11 if has_ext => {
+            let d = if rng.chance(1, 6) { 1 } else { 0 };
+            fields.insert("airp", coin_s((d, *rng.pick(&[0u128, 0, 5]))));
+            "airp"
+        }
+        _ => {
+            fields.insert("frozen", (p.frozen as u8).to_string());
+            "noop"
+        }
+    };
+    (upd_line(f, &fields), what.to_string())
+}
+
+struct Created {
+    m: u64,
+    code: u64,
+    n: u64,
+    admin: u64,
+    f: u64,
+}
+
+fn parse_created(line: &str, out: &str, code: u64) -> Option<Created> {
+    if !out.starts_with("ok ") {
+        return None;
+    }
+    Some(Created {
+        m: kv_u64(out, "m")?,
+        code,
+        n: kv_opt_u64(line, "n").flatten().unwrap_or(0),
+        admin: match AF::parse(line, "creator") {
+            AF::Id(i) => i,
+            _ => 0,
+        },
+        f: kv_u64(line, "f")?,
     })
 }
 
+fn class_of(p: &P, fault: Fault, out: &str) -> String {
+    format!("create:{:?}:code{}:{:?}:{}:fee{}", p.kind, p.code, fault, if out.starts_with("ok") { "ok" } else { "err" }, if p.fee.0 == 0 { "native" } else { "other" })
+}
+
 fn main() {
-    for (fee, pay) in [(0u128, 1u128), (1, 1), (1, 3)] {
-        let mut w = World::new(GENESIS + 1000);
-        let kind = MinterKind::Vending;
-        let mut p = w.default_params(kind);
-        p.creation_fee = (0, fee);
-        let f = w.new_factory(kind.factory(), &p).expect("factory");
-        let mut a = w.default_create(kind, &p);
-        w.fund(&addr(a.creator), 0, 1000);
-        a.funds = vec![(0, pay)];
-        let r = w.create_minter(&f, kind, &a);
-        println!("fee={fee} pay={pay}: {:?} {}", r, supply(&w, 0));
+    let mut ses = Session::new("C08");
+    let mut sut = S::new();
+    if ses.maybe_replay(&mut sut) {
+        ses.finish(&mut sut);
     }
-    // non-native
-    for (fee, pay) in [(0u128, 1u128), (1, 1), (1, 3), (5, 4), (5, 9)] {
-        let mut w = World::new(GENESIS + 1000);
-        let kind = MinterKind::Vending;
-        let mut p = w.default_params(kind);
-        p.creation_fee = (1, fee);
-        let f = w.new_factory(kind.factory(), &p).expect("factory");
-        let mut a = w.default_create(kind, &p);
-        w.fund(&addr(a.creator), 1, 1000);
-        a.funds = vec![(1, pay)];
-        let r = w.create_minter(&f, kind, &a);
-        println!("nonnative fee={fee} pay={pay}: {:?} payer={} fac={} dao={}", r.map_err(|e| e.chars().rev().take(100).collect::<String>().chars().rev().collect::<String>()), w.balance(&addr(a.creator), 1), w.balance(&f, 1), w.balance(&addr(2), 1));
+    // the model's static code table mirrors the order in which World::new stores code
+    {
+        let w = World::new(0);
+        assert_eq!(w.codes.minters, (1..=11).collect::<Vec<u64>>(), "code table");
+        assert_eq!((w.codes.vending_factory, w.codes.open_edition_factory, w.codes.token_merge_factory, w.codes.base_factory), (12, 13, 14, 15));
+        assert_eq!((w.codes.sg721_base, w.codes.sg721_updatable, w.codes.sg721_nt, w.codes.sg721_metadata_onchain), (16, 17, 18, 19));
+        assert_eq!((w.codes.wl[0], w.codes.wl[1]), (20, 21));
     }
-    let t0 = std::time::Instant::now();
-    let mut w = World::new(GENESIS + 1000);
-    println!("world new {:?}", t0.elapsed());
-    let kind = MinterKind::Vending;
-    let mut p = w.default_params(kind);
-    p.max_token_limit = 500;
-    let f = w.new_factory(kind.factory(), &p).expect("factory");
-    let mut a = w.default_create(kind, &p);
-    w.fund(&addr(a.creator), 0, 1000_000_000_000_000);
-    for n in [10u32, 100, 400] {
-        a.num_tokens = Some(n);
-        let t0 = std::time::Instant::now();
-        for _ in 0..20 { w.create_minter(&f, kind, &a).unwrap(); }
-        println!("n={n}: 20 creates {:?}", t0.elapsed());
+    let mut rng = ses.rng.fork();
+    let kinds = [FactoryKind::Vending, FactoryKind::OpenEdition, FactoryKind::TokenMerge, FactoryKind::Base];
+    let fund_lines = |who: u64| -> Vec<String> { (0..3).map(|d| format!("fund who={who} denom={d} amt=1000000000000000000000000")).collect() };
+
+    // ---------------------------------------------------------------- 1. the grid: every fault × every factory × every minter code,
+    // against default parameters, then against parameters moved by governance so that the same message flips.
+    for kind in kinds {
+        for code in family_codes(kind).into_iter().chain(if matches!(kind, FactoryKind::Vending | FactoryKind::OpenEdition) { vec![11u64] } else { vec![] }) {
+            for fee_denom in [0u64, 1] {
+                ses.begin_case(&mut sut, &format!("case grid kind={:?} code={code} feedenom={fee_denom}", kind));
+                let now = GENESIS + 5_000 * NS;
+                ses.step(&mut sut, &format!("time t={now}"));
+                for who in [10u64, 12] {
+                    for l in fund_lines(who) {
+                        ses.step(&mut sut, &l);
+                    }
+                }
+                let has_ext = kind != FactoryKind::Base;
+                let p0 = P {
+                    kind,
+                    code,
+                    allowed: vec![16, 17, 18],
+                    frozen: false,
+                    fee: (fee_denom, 5_000_000),
+                    minp: if kind == FactoryKind::TokenMerge { (0, 0) } else { (0, 50_000_000) },
+                    off: 604_800,
+                    maxtok: if has_ext { 200 } else { 0 },
+                    maxper: if has_ext { 5 } else { 0 },
+                    airp: (0, 0),
+                };
+                let out = ses.step(&mut sut, &mkfactory_line(&p0));
+                let f = kv_u64(&out, "f").unwrap();
+                let mut wls: Vec<Wl> = vec![];
+                for flex in [false, true] {
+                    let (s, e) = (now + 100 * NS, now + 200 * NS);
+                    let o = ses.step(&mut sut, &format!("mkwl flex={} start={s} end={e}", flex as u8));
+                    if let Some(id) = kv_u64(&o, "wl") {
+                        wls.push(Wl { id, flex, start: s, end: e });
+                    }
+                }
+                let mut created: Vec<Created> = vec![];
+                for fault in FAULTS {
+                    let p = sut.read_params(&addr(f), kind).unwrap();
+                    let mut c = baseline(&mut rng, f, &p, now, &wls);
+                    if !apply_fault(&mut rng, &mut c, fault, &p, now, &wls, f) {
+                        continue;
+                    }
+                    let line = c.line();
+                    let o = ses.step(&mut sut, &line);
+                    ses.mark(class_of(&p, fault, &o));
+                    if let Some(cr) = parse_created(&line, &o, p.code) {
+                        created.push(cr);
+                    }
+                    // governance moves the bound; the very same message is sent again, then the bound moves back
+                    let shift: Option<(String, String)> = match fault {
+                        Fault::NOver if has_ext => Some((upd(f, "maxtok", (p.maxtok + 1).to_string()), upd(f, "maxtok", p.maxtok.to_string()))),
+                        Fault::PerOverMax if has_ext => Some((upd(f, "maxper", (p.maxper + 1).to_string()), upd(f, "maxper", p.maxper.to_string()))),
+                        Fault::PriceUnder => Some((upd(f, "minp", coin_s((0, p.minp.1 - 1))), upd(f, "minp", coin_s(p.minp)))),
+                        Fault::FundsUnder => Some((upd(f, "fee", coin_s((p.fee.0, p.fee.1 - 1))), upd(f, "fee", coin_s(p.fee)))),
+                        Fault::FundsOver1 => Some((upd(f, "fee", coin_s((p.fee.0, p.fee.1 + 1))), upd(f, "fee", coin_s(p.fee)))),
+                        Fault::CodeNotAllowed if c.sg721 != 999 => Some((upd(f, "add", c.sg721.to_string()), upd(f, "rm", c.sg721.to_string()))),
+                        Fault::None => Some((upd(f, "frozen", "1".into()), upd(f, "frozen", "0".into()))),
+                        Fault::FundsWrongDenom => Some((upd(f, "fee", coin_s(c.funds[0])), upd(f, "fee", coin_s(p.fee)))),
+                        Fault::TradeOver => Some((upd(f, "off", (p.off + 1).to_string()), upd(f, "off", p.off.to_string()))),
+                        _ => None,
+                    };
+                    if let Some((go, back)) = shift {
+                        ses.step(&mut sut, &go);
+                        let p2 = sut.read_params(&addr(f), kind).unwrap();
+                        let o2 = ses.step(&mut sut, &line);
+                        ses.mark(format!("{}:after-governance", class_of(&p2, fault, &o2)));
+                        if let Some(cr) = parse_created(&line, &o2, p2.code) {
+                            created.push(cr);
+                        }
+                        ses.step(&mut sut, &back);
+                    }
+                }
+                // allow-listed code ids that are not collections: a whitelist code, a minter code, no code at all
+                ses.step(&mut sut, &upd(f, "add", "20,11,999".into()));
+                for junk in [20u64, 11, 999] {
+                    let p = sut.read_params(&addr(f), kind).unwrap();
+                    let mut c = baseline(&mut rng, f, &p, now, &wls);
+                    c.sg721 = junk;
+                    let o = ses.step(&mut sut, &c.line());
+                    ses.mark(format!("junk-allowed-code:{:?}:code{code}:{junk}:{}", kind, &o[..2]));
+                }
+                ses.step(&mut sut, &upd(f, "rm", "20,11,999".into()));
+                // a payer that owns exactly one fee: pays once, then cannot pay again; overpaying is impossible for it
+                {
+                    let p = sut.read_params(&addr(f), kind).unwrap();
+                    ses.step(&mut sut, &format!("fund who=17 denom={} amt={}", p.fee.0, p.fee.1));
+                    for (tag, extra) in [("over", 1u128), ("exact", 0), ("again", 0)] {
+                        let mut c = baseline(&mut rng, f, &p, now, &wls);
+                        c.sender = 17;
+                        c.funds = vec![(p.fee.0, p.fee.1 + extra)];
+                        let o = ses.step(&mut sut, &c.line());
+                        ses.mark(format!("poor-sender:{:?}:code{code}:{tag}:{}", kind, &o[..2]));
+                    }
+                }
+                // whitelist activity: exact instants
+                if matches!(kind, FactoryKind::Vending | FactoryKind::OpenEdition) && code != 11 {
+                    let flex_needed = matches!(code, 3 | 4 | 8);
+                    if let Some(w) = wls.iter().find(|w| w.flex == flex_needed).cloned() {
+                        for t in [w.start - 1, w.start, w.end - 1, w.end] {
+                            ses.step(&mut sut, &format!("time t={t}"));
+                            let p = sut.read_params(&addr(f), kind).unwrap();
+                            let mut c = baseline(&mut rng, f, &p, t, &wls);
+                            c.wl = AF::Id(w.id);
+                            let o = ses.step(&mut sut, &c.line());
+                            ses.mark(format!("wl-instant:{:?}:code{code}:{}:{}", kind, if t < w.start { "before" } else if t < w.end { "active" } else { "after" }, &o[..2]));
+                        }
+                    }
+                }
+                // per-address-limit updates on what was created, against moved governance bounds
+                for cr in created.iter().take(6) {
+                    let p = sut.read_params(&addr(cr.f), kind).unwrap();
+                    let b = three_bound(cr.code, cr.n, p.maxper);
+                    for l in [0, 1, b.saturating_sub(1), b, b + 1, p.maxper, p.maxper + 1] {
+                        let o = ses.step(&mut sut, &format!("setlimit m={} sender={} funds=- limit={l}", cr.m, cr.admin));
+                        ses.mark(format!("setlimit:code{}:{}:{}", cr.code, if l == 0 { "zero" } else if l <= b { "within" } else if l <= p.maxper { "over3pct" } else { "overmax" }, &o[..2]));
+                    }
+                    let o = ses.step(&mut sut, &format!("setlimit m={} sender=77 funds=- limit=1", cr.m));
+                    ses.mark(format!("setlimit:stranger:{}", &o[..2]));
+                    let o = ses.step(&mut sut, &format!("setlimit m={} sender={} funds=0:1 limit=1", cr.m, cr.admin));
+                    ses.mark(format!("setlimit:funds:{}", &o[..2]));
+                    if has_ext {
+                        ses.step(&mut sut, &upd(cr.f, "maxper", (b + 2).to_string()));
+                        for l in [b, b + 1, b + 2, b + 3] {
+                            let o = ses.step(&mut sut, &format!("setlimit m={} sender={} funds=- limit={l}", cr.m, cr.admin));
+                            ses.mark(format!("setlimit-after-governance:code{}:{}:{}", cr.code, l as i64 - b as i64, &o[..2]));
+                        }
+                        ses.step(&mut sut, &upd(cr.f, "maxper", "1".into()));
+                        for l in [1, 2] {
+                            let o = ses.step(&mut sut, &format!("setlimit m={} sender={} funds=- limit={l}", cr.m, cr.admin));
+                            ses.mark(format!("setlimit-after-lowering:code{}:{l}:{}", cr.code, &o[..2]));
+                        }
+                        ses.step(&mut sut, &upd(cr.f, "maxper", p.maxper.to_string()));
+                    }
+                }
+                ses.end_case();
+            }
+        }
     }
-    let _ = json!({});
+
+    // ---------------------------------------------------------------- 2. the 3 % rule: every (n, limit) around every step of ⌈3n/100⌉
+    for code in [1u64, 2, 3, 4, 5, 6, 10] {
+        let kind = if code == 10 { FactoryKind::TokenMerge } else { FactoryKind::Vending };
+        ses.begin_case(&mut sut, &format!("case three-percent code={code}"));
+        let now = GENESIS + 9 * NS;
+        ses.step(&mut sut, &format!("time t={now}"));
+        for l in fund_lines(10) {
+            ses.step(&mut sut, &l);
+        }
+        for l in fund_lines(12) {
+            ses.step(&mut sut, &l);
+        }
+        let p0 = P { kind, code, allowed: vec![16], frozen: false, fee: (0, 2), minp: (0, 0), off: 0, maxtok: 400, maxper: 9, airp: (0, 0) };
+        let out = ses.step(&mut sut, &mkfactory_line(&p0));
+        let f = kv_u64(&out, "f").unwrap();
+        let ns: Vec<u64> = if ses.tier() == Tier::Quick { vec![1, 50, 99, 100, 101, 133, 134, 166, 167, 200, 201, 233, 234, 300, 301] } else { (1..=320).collect() };
+        for n in ns {
+            let b = if n < 100 { 3 } else { ceil3pct(n) };
+            for per in [b.saturating_sub(1).max(1), b, b + 1, 9, 10] {
+                let p = sut.read_params(&addr(f), kind).unwrap();
+                let mut c = baseline(&mut rng, f, &p, now, &[]);
+                c.n = Some(n);
+                c.per = per;
+                let o = ses.step(&mut sut, &c.line());
+                ses.mark(format!("3pct:code{code}:n{}:{}:{}", if n < 100 { "lt100".to_string() } else { format!("{}", n % 100 % 34 == 0) }, per as i64 - b as i64, &o[..2]));
+            }
+        }
+        ses.end_case();
+    }
+
+    // ---------------------------------------------------------------- 3. random histories: governance updates between creations
+    let ncases = ses.scale(1200, 30000);
+    for ci in 0..ncases {
+        let kind = kinds[(ci % 4) as usize];
+        ses.begin_case(&mut sut, &format!("case random i={ci} kind={:?}", kind));
+        let mut now = match rng.below(10) {
+            0 => GENESIS - 10 * NS,
+            1 => GENESIS,
+            _ => GENESIS + rng.below(1_000_000) * NS + rng.below(3),
+        };
+        ses.step(&mut sut, &format!("time t={now}"));
+        for who in [10u64, 12] {
+            for l in fund_lines(who) {
+                ses.step(&mut sut, &l);
+            }
+        }
+        let mut facs: Vec<(u64, FactoryKind)> = vec![];
+        let p0 = random_params(&mut rng, kind);
+        let out = ses.step(&mut sut, &mkfactory_line(&p0));
+        facs.push((kv_u64(&out, "f").unwrap(), kind));
+        if rng.chance(1, 3) {
+            let k2 = *rng.pick(&kinds);
+            let out = ses.step(&mut sut, &mkfactory_line(&random_params(&mut rng, k2)));
+            facs.push((kv_u64(&out, "f").unwrap(), k2));
+        }
+        let mut wls: Vec<Wl> = vec![];
+        for _ in 0..rng.below(3) {
+            let flex = rng.chance(1, 2);
+            let s = now.max(GENESIS) + rng.range(1, 50) * NS;
+            let e = s + rng.range(1, 50) * NS;
+            let o = ses.step(&mut sut, &format!("mkwl flex={} start={s} end={e}", flex as u8));
+            if let Some(id) = kv_u64(&o, "wl") {
+                wls.push(Wl { id, flex, start: s, end: e });
+            }
+        }
+        let mut created: Vec<Created> = vec![];
+        let nops = rng.range(8, 28);
+        for _ in 0..nops {
+            let (f, k) = *rng.pick(&facs);
+            let p = sut.read_params(&addr(f), k).unwrap();
+            match rng.below(20) {
+                0..=11 => {
+                    let mut c = baseline(&mut rng, f, &p, now, &wls);
+                    let fault = if rng.chance(11, 20) { Fault::None } else { *rng.pick(&FAULTS) };
+                    let other = facs[0].0;
+                    let applied = apply_fault(&mut rng, &mut c, fault, &p, now, &wls, other);
+                    let line = c.line();
+                    let o = ses.step(&mut sut, &line);
+                    ses.mark(class_of(&p, if applied { fault } else { Fault::None }, &o));
+                    if p.frozen {
+                        ses.mark(format!("create:frozen:{:?}:{}", p.kind, &o[..2]));
+                    }
+                    if let Some(cr) = parse_created(&line, &o, p.code) {
+                        created.push(cr);
+                    }
+                }
+                12..=15 => {
+                    let (l, what) = params_update_line(&mut rng, f, &p);
+                    let o = ses.step(&mut sut, &l);
+                    ses.mark(format!("params:{:?}:{what}:{}", k, &o[..2]));
+                }
+                16 => {
+                    // move the clock: to a whitelist edge, or forward
+                    if !wls.is_empty() && rng.chance(1, 2) {
+                        let w = rng.pick(&wls).clone();
+                        now = *rng.pick(&[w.start - 1, w.start, w.end - 1, w.end]);
+                    } else {
+                        now += rng.below(100) * NS + rng.below(2);
+                    }
+                    ses.step(&mut sut, &format!("time t={now}"));
+                }
+                _ => {
+                    if created.is_empty() {
+                        continue;
+                    }
+                    let cr = rng.pick(&created);
+                    let kf = facs.iter().find(|x| x.0 == cr.f).unwrap().1;
+                    let pf = sut.read_params(&addr(cr.f), kf).unwrap();
+                    let b = three_bound(cr.code, cr.n, pf.maxper);
+                    let l = *rng.pick(&[0, 1, b.saturating_sub(1), b, b + 1, pf.maxper, pf.maxper + 1]);
+                    let sender = if rng.chance(1, 8) { 77 } else { cr.admin };
+                    let o = ses.step(&mut sut, &format!("setlimit m={} sender={sender} funds=- limit={l}", cr.m));
+                    ses.mark(format!("setlimit:random:code{}:{}:{}", cr.code, if sender == 77 { "stranger" } else if l == 0 { "zero" } else if l <= b { "within" } else { "over" }, &o[..2]));
+                }
+            }
+        }
+        ses.end_case();
+    }
+    if std::env::var("C08_DUMP_CLASSES").is_ok() {
+        let _ = std::fs::write(ses.args.out.join("classes.txt"), ses.classes.iter().cloned().collect::<Vec<_>>().join("\n"));
+    }
+    ses.note(format!("contract panics caught and rolled back: {}", sut.panics));
+    ses.note("every create is checked by monitors that transcribe the property from the real factory's Params query, the bank module's full balance table, ContractInfo, minter Config and collection Minter/Ownership/CollectionInfo queries");
+    ses.finish(&mut sut);
 }
